@@ -172,6 +172,9 @@ def clause2_atomic(ctx, P, cg):
                     eff = a[1] if p else Q.negate_pred(a[1])
                     if eff == "sge":
                         okc += 1
+            if not P.by_src.get("copy_single_buffer"):
+                # the helper folded into the loop by hand: a copy that succeeded is a store to to_write on the path
+                okc = sum(1 for _, i in v.insts() if i.op == "store" and _fld(P.term(cv, i.a[1]), "to_write"))
             if okc > 0:
                 tear = v
     ok = guard_ok or tear is None
@@ -366,30 +369,43 @@ def clause5_cursor(ctx, P):
                         if c == 1 and k[0] == "load" and Q.mentions(k, lambda x: x[0] == "field" and x[3] == "iov_len"):
                             oksum = True
     ctx.ob("C10.5 R-CURSOR", wv, "total-is-pending-plus-vectors", oksum, "the expected byte count is not to_write + sum of iov_len")
-    cs = P.fn("buffered_socket.c:copy_single_buffer")
+    # the copy into the write buffer: in copy_single_buffer(), or in the vector loop itself when the helper was folded into it
+    cv = P.fn("buffered_socket.c:copy_iovec_to_write_buffer")
+    cs = P.fn("buffered_socket.c:copy_single_buffer", required=False) or cv
     cb = ("param", 0, cs.params[0]["name"])
     ctw = ("load", ("field", cb, BS, "to_write"))
-    n_ = ("param", 2, cs.params[2]["name"])
     okc = okg = oka = False
+    n_ = src_ = None
     for c in cs.calls(("memcpy", "llvm.memcpy.p0i8.p0i8.i64")):
-        d, s, n = (P.term(cs, x) for x in c.a[0:3])
-        okc = A.diff(P, d, ("field", cb, BS, "write_buffer")) == ({ctw: 1}, 0) and s == ("param", 1, cs.params[1]["name"]) and n == n_
+        d, s_, n = (P.term(cs, x) for x in c.a[0:3])
+        if A.diff(P, d, ("field", cb, BS, "write_buffer")) != ({ctw: 1}, 0):
+            continue
+        okc = True
+        n_, src_ = n, s_
 
-        def fits(atom, pol):
+        def fits(atom, pol, n_=n):
             if atom[0] != "cmp" or atom[2] != n_:
                 return False
             eff = atom[1] if pol else Q.negate_pred(atom[1])
             return eff == "ule" and A.diff(P, atom[3], ("const", SIZE)) == ({ctw: -1}, 0)
         okg = Q.must_pass(P, cs, c.block, fits)
     for i in cs.all_insts():
-        if i.op == "store" and _fld(P.term(cs, i.a[1]), "to_write"):
-            oka = A.diff(P, P.term(cs, i.a[0]), ctw) == ({n_: 1}, 0)
+        if i.op == "store" and _fld(P.term(cs, i.a[1]), "to_write") and n_ is not None:
+            dd = A.diff(P, P.term(cs, i.a[0]), ctw)
+            dn = A.norm(P, n_) if hasattr(A, "norm") else None
+            oka = dd is not None and (dd == ({n_: 1}, 0) or (dn is not None and dd == dn))
     ctx.ob("C10.5 R-CURSOR", cs, "copy-at-end-under-capacity", okc and okg and oka,
-           "copy_single_buffer: destination write_buffer+to_write=%s, guard n <= SIZE - to_write=%s, to_write += n=%s" % (okc, okg, oka))
-    cv = P.fn("buffered_socket.c:copy_iovec_to_write_buffer")
+           "%s: destination write_buffer+to_write=%s, guard n <= SIZE - to_write=%s, to_write += n=%s" % (cs.srcname, okc, okg, oka))
     oks = False
-    for c in cv.calls("copy_single_buffer"):
-        st, n = P.term(cv, c.a[1]), P.term(cv, c.a[2])
+    pairs = []
+    if cs is cv:
+        if src_ is not None:
+            pairs.append((src_, n_))
+    else:
+        if src_ == ("param", 1, cs.params[1]["name"]) and n_ == ("param", 2, cs.params[2]["name"]):
+            for c in cv.calls("copy_single_buffer"):
+                pairs.append((P.term(cv, c.a[1]), P.term(cv, c.a[2])))
+    for (st, n) in pairs:
         base = [x for x in Q.subterms(st) if x[0] == "load" and Q.mentions(x, lambda y: y[0] == "field" and y[3] == "iov_base")]
         ln = [x for x in Q.subterms(n) if x[0] == "load" and Q.mentions(x, lambda y: y[0] == "field" and y[3] == "iov_len")]
         if base and ln:
